@@ -14,7 +14,7 @@ Lemmas/Funcs.lean.
 
 The BEHAVIOURAL theorems hold at full strength: for every number of stages, every failing position,
 all stage functions, all argument values of any type `V`, all error values of any type `E`
-(`compose_spec`, `traverse_spec`, `fmapE_spec`, `joinE_spec`, `bindE_spec`, `toerror_spec`, and the
+(`compose_spec`, `traverse_spec`, `fmapE_spec`, `joinE_spec_partial/_fixed`, `bindE_spec_partial/_fixed`, `toerror_spec`, and the
 corollaries in the wording of the property).
 
 "Whatever those types are" is where the generator as it is falls short: the helper contains the TEXT
@@ -33,8 +33,11 @@ the log before the first invocation). Fmap's error form with a multi-result `f` 
 returns a function that holds the already computed results (`fmapE_fn_spec`,
 `fmapE_fn_evaluates_nothing`). Join, traverse and the other fmap forms return plain values: all calls
 have happened when they return.
-For Join, the last stage is `f` itself and its results are returned unchanged (`return f()`), also
-beside its own error: the zero-value clause concerns the error that was already there.
+For Join the last stage is `f` itself and the emitted `return f()` hands on what `f` returned beside its
+own error: against the property text that is a deviation (`joinE_passthrough_witness`); `joinE_spec_partial`
+/ `bindE_spec_partial` carry the side condition on the last stage, `*_fixed` are the full statements.
+Compose zeroes the results explicitly also when its last stage fails; traverse returns the nil slice;
+fmap's `f` cannot fail; toerror is exempt by the property's own wording.
 -/
 import GoderiveModel.Lemmas.Funcs
 
@@ -161,19 +164,45 @@ theorem join_of_fmap_fn {V E} (zeros : List V) (g f : Stage V E) :
 example : joinFn [0] (fmapEFn (st (some 0) 0) (st none 1)).fn (fmapEFn (st (some 0) 0) (st none 1)).err
     = some { res := [0], err := some 0, log := [] } := by decide
 
-theorem joinE_spec {V E} (zeros : List V) (f : Stage V E) (err : Option E) :
-    joinE zeros f err = joinESpec zeros f err :=
-  joinE_eq_spec zeros f err
+/-- Join against the property text ("at the first stage that fails … all non-error results are zero
+values"): the emitted `return f()` hands on whatever `f` returned beside its own error, so the statement
+needs a side condition on the LAST stage — it succeeds, or returns zero values with its error — that
+disappears with `passFixed` -/
+theorem joinE_spec_partial {V E} (pass : Bool) (zeros : List V) (f : Stage V E) (err : Option E)
+    (h : pass = true ∨ (f.run []).2 = none ∨ (f.run []).1 = zeros) :
+    joinEC pass zeros f err = joinESpec zeros f err :=
+  joinEC_eq_spec pass zeros f err h
 
-example : joinE [0] ⟨fun _ => ([5], (none : Option Nat))⟩ (some 3) = { res := [0], err := some 3, log := [] } := by decide
-example : joinE [0] ⟨fun _ => ([5], (none : Option Nat))⟩ none = { res := [5], err := none, log := [(1, [])] } := by decide
+example : joinEC false [0] ⟨fun _ => ([5], (none : Option Nat))⟩ (some 3) = { res := [0], err := some 3, log := [] } := by decide
+example : joinEC false [0] ⟨fun _ => ([5], (none : Option Nat))⟩ none = { res := [5], err := none, log := [(1, [])] } := by decide
 
-/-- `deriveJoin(deriveFmap(f, g))` -/
-theorem bindE_spec {V E} (zeros : List V) (g f : Stage V E) :
-    bindE zeros g f = bindESpec zeros g f :=
-  bindE_eq_spec zeros g f
+theorem joinE_spec_fixed {V E} (zeros : List V) (f : Stage V E) (err : Option E) :
+    joinEC true zeros f err = joinESpec zeros f err :=
+  joinEC_eq_spec true zeros f err (Or.inl rfl)
 
-example : bindE [0] ⟨fun _ => ([5], (none : Option Nat))⟩ ⟨fun a => (a.map (· + 1), some 9)⟩
+example : joinEC true [0] ⟨fun _ => ([5], some 9)⟩ (none : Option Nat) = { res := [0], err := some 9, log := [(1, [])] } := by decide
+
+/-- the code as it is: `f` fails and returns 5 beside its error — join returns 5, the property says 0 -/
+theorem joinE_passthrough_witness :
+    joinEC false [0] ⟨fun _ => ([5], some 9)⟩ (none : Option Nat) = { res := [5], err := some 9, log := [(1, [])] } ∧
+    joinESpec [0] ⟨fun _ => ([5], some 9)⟩ (none : Option Nat) = { res := [0], err := some 9, log := [(1, [])] } := by decide
+
+/-- `deriveJoin(deriveFmap(f, g))`: the same side condition on `f` -/
+theorem bindE_spec_partial {V E} (pass : Bool) (zeros : List V) (g f : Stage V E)
+    (h : pass = true ∨ (f.run (g.run []).1).2 = none ∨ (f.run (g.run []).1).1 = zeros) :
+    bindEC pass zeros g f = bindESpec zeros g f :=
+  bindEC_eq_spec pass zeros g f h
+
+example : bindEC false [0] ⟨fun _ => ([5], (none : Option Nat))⟩ ⟨fun a => (a.map (· + 1), none)⟩
+    = { res := [6], err := none, log := [(0, []), (1, [5])] } := by decide
+
+theorem bindE_spec_fixed {V E} (zeros : List V) (g f : Stage V E) :
+    bindEC true zeros g f = bindESpec zeros g f :=
+  bindEC_eq_spec true zeros g f (Or.inl rfl)
+
+example : bindEC true [0] ⟨fun _ => ([5], (none : Option Nat))⟩ ⟨fun a => (a.map (· + 1), some 9)⟩
+    = { res := [0], err := some 9, log := [(0, []), (1, [5])] } := by decide
+example : bindEC false [0] ⟨fun _ => ([5], (none : Option Nat))⟩ ⟨fun a => (a.map (· + 1), some 9)⟩
     = { res := [6], err := some 9, log := [(0, []), (1, [5])] } := by decide
 
 /-- `f` once; the other results unchanged; nil iff `f` reports true, otherwise exactly the supplied error -/
